@@ -119,6 +119,9 @@ def compact_class_pairs(
         for j, class2 in enumerate(class1.Class2Record):
             if is_really_zero(class2):
                 continue
+            if not classes1[i] or not classes2[j]:
+                # a record for a class that contains no glyph can never match
+                continue
             all_pairs[(tuple(sorted(classes1[i])), tuple(sorted(classes2[j])))] = (
                 getattr(class2, "Value1", None),
                 getattr(class2, "Value2", None),
